@@ -7,7 +7,7 @@ ENTRY = "c09"
 GROUP = "acct"
 BIN = "vh_c09"
 COQ_TARGETS = ["Properties/C09.vo"]
-SECONDARY = ["c09_vec"]
+SECONDARY = ["c09_vec", "c09_set"]
 
 E_SIGNER = 1001
 E_WRITABLE = 1000
@@ -31,6 +31,7 @@ ASSUMPTIONS = [
     "the order of checks of a stack is: #[validate(address)] of the enclosing field first, then wrappers innermost first (as generated)",
     "a #[validate(id = .., address = ..)] attribute applies to the validate id it names and to no other (validated through another id, the field carries no address layer)",
     "an optional account whose key equals the current program id decodes as absent (the documented placeholder encoding)",
+    "the unskipped fields of a derived set are validated in declaration order when no `requires` is given (stage set); nested sets flatten",
 ]
 
 _FAM = None
